@@ -366,8 +366,17 @@ fn px(max: usize, big_ok: bool) -> BoxedStrategy<Px> {
         .prop_map(|(unit, dist, fill, seed, tail)| Px::Repeat { unit, dist, fill, seed, tail });
     let plain = payload(size_around(BLOCKS, max), 48).prop_map(Px::Plain);
     let packed = payload(size_around(BLOCKS, max), 48).prop_map(Px::Packed);
+    // a very compressible region of 1-2 KiB next to an incompressible one of 0.5-4 KiB, in either
+    // order (2 in 3), or two arbitrary regions (1 in 3)
     let region = |lens: &'static [usize]| payload(size_around(lens, max.max(64)), 16);
-    let two = (region(&[300, 1024, 1500]), region(&[64, 600, 2048])).prop_map(|(first, second)| Px::Two { first, second });
+    let squeezable = (proptest::sample::select(vec![Content::Text, Content::Runs, Content::Periodic, Content::TwoSymbol, Content::Constant, Content::Geometric]), 1024usize..=2048, any::<u64>())
+        .prop_map(|(content, len, seed)| Payload::Gen { content, len, seed });
+    let noise = (512usize..=4096, any::<u64>()).prop_map(|(len, seed)| Payload::Gen { content: Content::Uniform, len, seed });
+    let two = prop_oneof![
+        1 => (squeezable.clone(), noise.clone()).prop_map(|(first, second)| Px::Two { first, second }),
+        1 => (noise, squeezable).prop_map(|(first, second)| Px::Two { first, second }),
+        1 => (region(&[300, 1024, 1500]), region(&[64, 600, 2048])).prop_map(|(first, second)| Px::Two { first, second }),
+    ];
     if big_ok {
         let big = (proptest::sample::select(vec![Content::Constant, Content::Periodic, Content::Runs, Content::TwoSymbol, Content::Text]), prop_oneof![Just(128u16), Just(1024u16), 100u16..1500], any::<u64>())
             .prop_map(|(content, kib, seed)| Px::Big { content, kib, seed });
